@@ -133,7 +133,13 @@ class Check:
                 json.dump(v, open(path, 'w'), indent=1, default=str)
                 viol_lines.append('VIOLATION property=%s replay=%s' % (s.pid, path))
             for kh in r.get('known_hits', []):
-                known_lines.append('KNOWN-FINDING: property=%s %s' % (s.pid, kh['what']))
+                rep = (True, 'not replayed')
+                if s.replayer is not None:
+                    try: rep = s.replayer(kh['case'])
+                    except Exception as ex: rep = (None, 'replay error: %s' % ex)
+                    replays += 1
+                if rep[0]: known_lines.append('KNOWN-FINDING: property=%s %s' % (s.pid, kh['what']))
+                else: r['notes'].append('known finding %s found by the solver but not reproduced natively: %r' % (kh['class'], rep))
         if n_viol: status = 1
         funcs = {}
         for r in results: funcs.update(r['functions'])
@@ -171,6 +177,55 @@ class Check:
         print('[%s] tier=%s seed=%d obligations=%d discharged=%d violations=%d status=%s wall=%.1fs' % (
             s.pid, s.tier, s.seed, obligations, discharged, n_viol, ev['status'], time.time() - s.t0))
         return status
+
+
+# ---------------------------------------------------------------------- per-job helpers
+def process_failed(jr, e, res, extract):
+    for o, m, r in res.failed:
+        if r == 'unknown':
+            jr.status = 'inconclusive'; jr.reason = 'solver returned unknown for: ' + o.msg; continue
+        if o.kind == 'unwind':
+            jr.status = 'inconclusive'; jr.reason = 'bound too small: ' + o.msg; continue
+        case = extract(m, o)
+        case['what'] = o.msg; case['where'] = o.where; case['obligation_kind'] = o.kind
+        jr.violations.append(case)
+        if jr.status == 'pass': jr.status = 'violation'
+
+
+def witness(jr, e, name, formula, extract, optional=False):
+    r, m = solve.check_sat(e, formula)
+    if r == z3.sat:
+        jr.witnesses.append({name: extract(m)})
+    elif optional:
+        jr.notes.append('optional witness %s: %s' % (name, r))
+    else:
+        jr.status = 'inconclusive'; jr.reason = 'vacuity witness %s is %s' % (name, r)
+
+
+def discharge_known(e, jr, pid, classes, extract, obligations=None):
+    """Discharge obligations with the open known-finding classes excluded, then ask for each open class
+    whether it still reproduces. classes: name -> (formula over the inputs, obligation kinds it may affect)."""
+    known = {k['class']: k for k in load_known(pid)}
+    active = {n: c for n, c in classes.items() if n in known}
+    src = list(e.obligations if obligations is None else obligations)
+    obs = []
+    for o in src:
+        excl = [znot(f) for n, (f, kinds) in active.items() if o.kind in kinds]
+        obs.append(Obligation(zand(o.guard, *excl), o.cond, o.msg, o.kind, o.where) if excl else o)
+    res = solve.discharge(e, obs)
+    process_failed(jr, e, res, extract)
+    for n, (f, kinds) in active.items():
+        negs = [zand(o.guard, znot(o.cond)) for o in src if o.kind in kinds]
+        if not negs: continue
+        r, m = solve.check_sat(e, zand(f, zor(*negs)))
+        if r == z3.sat:
+            case = extract(m, None); case['class'] = n
+            jr.known_hits.append({'class': n, 'what': known[n]['what'], 'case': case})
+        elif r == z3.unknown:
+            jr.notes.append('known class %s: solver unknown' % n)
+        else:
+            jr.notes.append('known class %s no longer reproduces in this job' % n)
+    return res
 
 
 # ---------------------------------------------------------------------- known findings
